@@ -271,7 +271,13 @@ impl Gatekeeper {
             .iter()
             // NOTE: Ideally there won't be a user with `block_height > subscription_expiry + expiry_delta`, but
             // this might happen if we skip a couple of block connections due to a force update.
-            .filter(|(_, info)| block_height >= info.subscription_expiry + self.expiry_delta)
+            // (the expiry of a subscription renewed often enough sits at `u32::MAX`, see `add_update_user`)
+            .filter(|(_, info)| {
+                block_height
+                    >= info
+                        .subscription_expiry
+                        .saturating_add(self.expiry_delta)
+            })
             .map(|(user_id, _)| *user_id)
             .collect()
     }
